@@ -170,6 +170,18 @@ Theorem C05_failed_renewal_keeps_serving : forall od idue s h c,
 Proof. exact failed_renewal_keeps_serving. Qed.
 Print Assumptions C05_failed_renewal_keeps_serving.
 
+(** over a history that does not write storage — what happens at shutdown, when the context is
+    cancelled and every job and pass runs to its end — the same two statements hold end to end
+    (this is what the monitor's final clause [Spec.spec_final] checks on the implementation) *)
+Theorem C05_quiet_history_cache : forall od idue s h,
+  WF od s -> quiet od idue s h ->
+  (forall c, In c (cache s) -> ~ In c (cache (run od idue s h)) ->
+     exists st, stored (store s) (chead c) = Some st /\ cid st <> cid c /\
+                In st (cache (run od idue s h))) /\
+  (forall c, In c (cache (run od idue s h)) -> ~ In c (cache s) -> stored (store s) (chead c) = Some c).
+Proof. exact quiet_history_cache. Qed.
+Print Assumptions C05_quiet_history_cache.
+
 (** ** "Managing a name loads its certificate from storage when a usable one exists, obtains one
     only when none exists, and renews only when the stored one is due." *)
 Theorem C05_manage_load_else_obtain_renew_if_due : forall od idue s n,
@@ -311,4 +323,18 @@ Proof.
   cbn zeta. split; [vm_compute; reflexivity|]. split.
   - repeat (apply Forall_cons; [cbn; try exact I; try lia; try (split; [lia | intros m []]) |]). apply Forall_nil.
   - split; vm_compute; reflexivity.
+Qed.
+(** hypotheses of [C05_quiet_history_cache]: a failing job and a pending pass run on *)
+Example ex_quiet :
+  let s := run ex_od false (ex_stale [0]) [PassScan 1; PassAct 1; JobStep 0 0; PassScan 2] in
+  let h := [JobStep 0 0; JobStep 0 0; PassAct 2; JobStep 0 0] in
+  WF ex_od s /\ quiet ex_od false s h.
+Proof.
+  cbn zeta. split; [apply WF_run, ex_stale_wf|].
+  intros h1 h2 E.
+  destruct h1 as [|e1 h1]; [reflexivity|]. injection E as <- E.
+  destruct h1 as [|e2 h1]; [vm_compute; reflexivity|]. injection E as <- E.
+  destruct h1 as [|e3 h1]; [vm_compute; reflexivity|]. injection E as <- E.
+  destruct h1 as [|e4 h1]; [vm_compute; reflexivity|]. injection E as <- E.
+  destruct h1 as [|e5 h1]; [vm_compute; reflexivity|]. discriminate.
 Qed.
